@@ -1,6 +1,7 @@
 from common import COMMON_ASSUME
 
 PROP = dict(
+    technique='fault enumeration over generated inputs: every k-th allocation of every allocating API fails once (allocation interposer); functional, leak and object-consistency oracles',
     harness=['c18_oom.c', 'vf_arr.c', 'vf_ref.c'],
     level='fault_enumeration',
     alloc=True,
